@@ -360,10 +360,40 @@ fn check_file(
         &|sr| rs.get_string(sr).map(|s| s.to_string()).map_err(|e| e.to_string()),
         mask,
     )?;
+    // the bytes the header describes as the string block, sliced without the library: behind
+    // header and records, whatever follows them in the file
+    let block_at = 20usize + ih.record_count as usize * ih.record_size as usize;
+    let want_block: &[u8] = bytes
+        .get(block_at..block_at + ih.string_block_size as usize)
+        .ok_or_else(|| Fail::new(format!("{w}:independent-header"), format!("{ih:?} does not fit into {} bytes", bytes.len())))?;
+    let trailing = bytes.len() - block_at - want_block.len();
+    if trailing > 0 && !pt::suppressed() {
+        ctx.check.bump("files_with_bytes_behind_the_string_block_checked", 1);
+    }
+    let block_is = |w: &str, got: &[u8]| -> CaseResult {
+        if got == want_block {
+            return Ok(());
+        }
+        let at = if bytes.len() <= 1 << 20 { bytes.windows(got.len().max(1)).position(|x| x == got) } else { None };
+        Err(Fail::new(
+            format!("{w}:string-block-is-not-the-bytes-the-header-describes"),
+            format!(
+                "the header puts the {}-byte string block at offset {block_at} of the {}-byte file ({trailing} bytes follow it); this path's block has {} bytes {}",
+                want_block.len(),
+                bytes.len(),
+                got.len(),
+                match at {
+                    Some(o) if !got.is_empty() => format!("that are found at offset {o}"),
+                    _ => "that differ".to_string(),
+                }
+            ),
+        ))
+    };
     // the string block accessor, and the cached resolver
     {
         let w = format!("{stage}:string-block-accessor");
         let sb = rs.string_block();
+        block_is(&w, sb.data())?;
         cmp_all(
             &w,
             rs.records(),
@@ -488,6 +518,7 @@ fn check_file(
                 .string_block()
                 .map_err(|e| lib_err(&w, "string_block-failed", &e))?;
             let w2 = format!("{stage}:mmap-string-block");
+            block_is(&w2, msb.data())?;
             cmp_all(
                 &w2,
                 mrs.records(),
@@ -564,8 +595,12 @@ pub fn check_table(ctx: &Ctx, t: &Table) -> Result<Facts, Fail> {
     let rsz = t.record_size();
 
     // A. reference file by the independent encoder; B/C/D. every access path agrees with the model
-    let bytes0 = dbcenc::encode(t);
-    let rs0 = check_file(ctx, "reference-file", &bytes0, t, None)?;
+    // (with a tail: the same file followed by padding / by the end of an older, larger table)
+    let mut bytes0 = dbcenc::encode(t);
+    let tail0 = dbcenc::reference_tail(t, &bytes0);
+    let stage0 = if tail0.is_empty() { "reference-file" } else { "reference-file-with-trailing-bytes" };
+    bytes0.extend_from_slice(&tail0);
+    let rs0 = check_file(ctx, stage0, &bytes0, t, None)?;
 
     // E. write
     let st = "rewritten-file";
@@ -580,6 +615,7 @@ pub fn check_table(ctx: &Ctx, t: &Table) -> Result<Facts, Fail> {
             .map_err(|e| lib_err(st, "write_records-failed", &e))?;
     }
     let mut bytes1 = cur.into_inner();
+    let written = bytes1.clone();
     // the same table written over the start of a sink that already holds a longer file
     {
         let mut cur = Cursor::new(vec![0xEEu8; bytes1.len() + 700]);
@@ -782,5 +818,74 @@ pub fn check_table(ctx: &Ctx, t: &Table) -> Result<Facts, Fail> {
 
     // F. every access path on the written file
     check_file(ctx, st, &bytes1, t, if mask { Some(&kept) } else { None })?;
+
+    // G. a history: the table is saved into a file that already holds something longer and is opened
+    // without truncation (a preallocated / padded file, or an older table with more rows saved by
+    // DbcWriter before). The writer rewinds and writes exactly its table; the old bytes stay behind the
+    // string block; every access path must read the new table from that file.
+    if t.tail.kind != 0 {
+        let st = "rewritten-file-saved-over-longer-file";
+        let path = ctx
+            .dir
+            .join(format!("h{}.dbc", FILE_NO.fetch_add(1, Ordering::Relaxed)));
+        let res = (|| -> Result<Vec<u8>, Fail> {
+            let save = |rs: &RecordSet, what: &str| -> CaseResult {
+                let io = |e: std::io::Error| Fail::new(format!("{st}:scratch-io"), format!("{what}: {e}"));
+                let f = std::fs::OpenOptions::new()
+                    .write(true)
+                    .create(true)
+                    .truncate(false)
+                    .open(&path)
+                    .map_err(io)?;
+                let mut out = std::io::BufWriter::new(f);
+                {
+                    let mut wtr = if t.writer_explicit_schema { DbcWriter::new(&mut out).with_schema(crate_schema(t)) } else { DbcWriter::new(&mut out) };
+                    wtr.write_records(rs).map_err(|e| lib_err(st, what, &e))?;
+                }
+                std::io::Write::flush(&mut out).map_err(io)
+            };
+            let old: Vec<u8> = if t.tail.kind == 3 {
+                let older = dbcenc::older_table(t, t.tail.len as usize);
+                let ors = DbcParser::parse_bytes(&dbcenc::encode(&older))
+                    .and_then(|p| p.with_schema(crate_schema(t)))
+                    .and_then(|p| p.parse_records())
+                    .map_err(|e| lib_err(st, "older-table-not-parsed", &e))?;
+                save(&ors, "write_records-of-the-older-table-failed")?;
+                std::fs::read(&path).expect("scratch read")
+            } else {
+                let mut old = match t.tail.kind {
+                    1 => vec![0u8; written.len()],
+                    _ => dbcenc::garbage(written.len(), 0x01d),
+                };
+                old.extend_from_slice(&dbcenc::pad_tail(t.tail, written.len()));
+                std::fs::write(&path, &old).expect("scratch write");
+                old
+            };
+            save(&rs0, "write_records-failed")?;
+            let now = std::fs::read(&path).expect("scratch read");
+            if old.len() <= written.len() {
+                return Ok(now); // (cannot happen: the older file is longer by construction) judged like a fresh file
+            }
+            if now.len() != old.len() || now[..written.len()] != written[..] || now[written.len()..] != old[written.len()..] {
+                return Err(Fail::new(
+                    format!("{st}:write-depends-on-what-the-sink-held"),
+                    format!(
+                        "a {}-byte file, opened without truncation, after write_records of a table that takes {} bytes in an empty sink: {} bytes, {}",
+                        old.len(),
+                        written.len(),
+                        now.len(),
+                        if now.len() >= written.len() && now[..written.len()] == written[..] { "bytes behind the table changed" } else { "the table's bytes differ" }
+                    ),
+                ));
+            }
+            Ok(now)
+        })();
+        let _ = std::fs::remove_file(&path);
+        let mut now = res?;
+        if facts.field_count_defect {
+            now[8..12].copy_from_slice(&(cols as u32).to_le_bytes());
+        }
+        check_file(ctx, st, &now, t, if mask { Some(&kept) } else { None })?;
+    }
     Ok(facts)
 }
